@@ -18,3 +18,13 @@ claim("C15", "exhaustiveness over $kind arms, escape-chain recognition on the ke
 claim("C03", "pairing/must-follow analysis on the acorn AST of the channel runtime, FIFO-discipline lint, template-to-runtime encoding agreement",
       "Decides the shape of the channel protocol: every wait-queue enqueue is followed by $block() and a continuation return, every queued closure reschedules the captured goroutine, select registrations are paired with deregistration, queues are push/shift only, $close rejects nil/closed channels and drains both queues, the compiler's select encoding matches $select's dispatch. Does not decide behaviour under interleavings (schedules, fairness, deadlock detection).",
       TB, "DESIGN.md §3 C03")
+
+claim("C07", "who-may-call / must-call table over resolved call sites keyed by enclosing case arms, guard-ordered reachability in the boxing arm, $kind exhaustiveness of the run-time copiers",
+      "Decides that every copying context of the translator converts through the cloning helper (9 contexts, counted by resolved callee and case path), that array/struct assignment emits $clone/T.copy before the aliasing stores, that boxing an array or struct into an interface clones, and that the run-time copiers recurse into both value kinds. Does not decide run-time aliasing of pointers/slices/maps.",
+      TB, "DESIGN.md §3 C07")
+claim("C08", "must-contain-check table over translation arms and prelude helpers, read/write sibling agreement, syntactic analysis of the runtime overlay",
+      "Decides that each arm translating an operation that must be able to panic carries its check (index read/write incl. strings and nil array pointers, slicing, nil-map store, division, make bounds, conversions, assertions, channel close/send, uncomparable comparison), that run-time errors are runtime.Error values installed by runtime.init, and the defer prologue/epilogue/evaluation-order shape. Does not decide $callDeferred/$recover stack logic.",
+      TB, "DESIGN.md §3 C08")
+claim("C14", "abstract evaluation of the literal encoder over all 256 byte values, rune/byte dispatch table, bounds obligations, encoding boundary constants",
+      "Decides exactly which bytes encodeString emits raw (256 obligations), that conversions/range/copy/append pick rune vs byte helpers by element type, that string index/slice are bounds-checked, and that the UTF-8/UTF-16 routines contain every boundary constant with matching widths. Does not decide decoder correctness on all byte sequences.",
+      TB, "DESIGN.md §3 C14")
